@@ -7,6 +7,7 @@ LEAN_TARGETS = ['RPVerif.Props.C01']
 def run(ctx):
     schedsuite.run(ctx, 'C01')
     nodelistsuite.run(ctx, 'C01')
+    nodelistsuite.run_concurrent(ctx)
     rmchain.run(ctx, 'C01')
     jsrunsched.run(ctx, 'C01')
 def replay(ctx, data):
@@ -14,6 +15,6 @@ def replay(ctx, data):
         return jsrunsched.replay(ctx, data, 'C01')
     if 'rm_chain' in data['input']:
         return rmchain.replay(ctx, data, 'C01')
-    if 'nodelist' in data['input']:
+    if 'nodelist' in data['input'] or 'conc' in data['input']:
         return nodelistsuite.replay(ctx, data, 'C01')
     return schedsuite.replay(ctx, data, 'C01')
